@@ -244,7 +244,12 @@ func (r *pedRun) run() {
 		if n.nidx < 0 {
 			continue
 		}
-		fault := rapid.SampledFrom(pedRespFaults).Draw(t, "respfault."+n.name)
+		menu := pedRespFaults
+		if !r.fast {
+			// only meaningful in regular mode: give it the weight of three
+			menu = append(append([]string(nil), menu...), "success-in-regular-mode", "success-in-regular-mode")
+		}
+		fault := rapid.SampledFrom(menu).Draw(t, "respfault."+n.name)
 		r.log("%s (new idx %d) response fault: %s", n.name, n.nidx, fault)
 		if rb == nil {
 			rb = &dkg.ResponseBundle{ShareIndex: uint32(n.nidx), SessionID: r.nonce}
@@ -533,28 +538,37 @@ func c11PedersenFresh(t *rapid.T, ev *evProp, maxN int) {
 		if !sum.Equal(ref.Key.Commits[0]) {
 			r.fail("key-not-sum-of-qual", "the public key is not the sum of the constant commitments broadcast by the dealers in QUAL [%s]", qualString(ref.QUAL))
 		}
-		for _, nd := range r.nodes {
-			if nd.byz == "" {
-				if !inQual[nd.oidx] {
-					r.fail("honest-dealer-disqualified", "honest dealer %s (fewer than t complaints are possible) is not in QUAL [%s]", nd.name, qualString(ref.QUAL))
-				}
-				continue
-			}
-			// a dealer whose invalid deal to an honest party stayed unjustified must be out
-			if len(r.victims[nd.oidx]) > 0 && r.noJust[nd.oidx] && inQual[nd.oidx] {
-				r.fail("cheating-dealer-qualified", "dealer %s sent invalid shares to honest nodes %v, never justified them correctly, and is in QUAL [%s]", nd.name, keysOf(r.victims[nd.oidx]), qualString(ref.QUAL))
-			}
-			if r.mustEvict[nd.oidx] && inQual[nd.oidx] {
-				// malformed / duplicated / conflicting bundles: every honest node evicts the dealer
-				r.fail("malformed-dealer-qualified", "dealer %s broadcast a malformed, duplicated or conflicting deal bundle and is in QUAL [%s]", nd.name, qualString(ref.QUAL))
-			}
-		}
+		r.checkQual(ref, inQual)
 	}
 	var labels []string
 	for k := range r.stats {
 		labels = append(labels, "dkg-ped:"+k)
 	}
 	ev.Case(nbyz > 0 || n > 3, strings.Join(r.hist, " | "), append(labels, "dkg:pedersen-fresh", fmt.Sprintf("dkg-ped-fast:%v", r.fast), fmt.Sprintf("dkg-ped-byz:%d", nbyz), fmt.Sprintf("dkg-ped-completed:%d", len(done)))...)
+}
+
+// checkQual: who must and who must not be among the qualified dealers (QUAL lists dealers by their
+// index in the dealing group: the old group when resharing).
+func (r *pedRun) checkQual(ref *dkg.Result, inQual map[int]bool) {
+	for _, nd := range r.nodes {
+		if nd.oidx < 0 || nd.dealPub == nil {
+			continue // not a dealer of this run
+		}
+		if nd.byz == "" {
+			if !inQual[nd.oidx] {
+				r.fail("honest-dealer-disqualified", "honest dealer %s (old index %d; fewer than t complaints are possible) is not in QUAL [%s]", nd.name, nd.oidx, qualString(ref.QUAL))
+			}
+			continue
+		}
+		// a dealer whose invalid deal to an honest party stayed unjustified must be out
+		if len(r.victims[nd.oidx]) > 0 && r.noJust[nd.oidx] && inQual[nd.oidx] {
+			r.fail("cheating-dealer-qualified", "dealer %s sent invalid shares to honest nodes %v, never justified them correctly, and is in QUAL [%s]", nd.name, keysOf(r.victims[nd.oidx]), qualString(ref.QUAL))
+		}
+		if r.mustEvict[nd.oidx] && inQual[nd.oidx] {
+			// malformed / duplicated / conflicting bundles: every honest node evicts the dealer
+			r.fail("malformed-dealer-qualified", "dealer %s broadcast a malformed, duplicated or conflicting deal bundle and is in QUAL [%s]", nd.name, qualString(ref.QUAL))
+		}
+	}
 }
 
 func keysOf(m map[int]bool) []int {
@@ -661,6 +675,21 @@ func c11PedersenReshare(t *rapid.T, ev *evProp, maxN int) {
 	}
 	r.run()
 	done := r.checkOutputs(nbyz == 0, oldKey)
+	if len(done) > 0 {
+		// After resharing QUAL lists the qualified NEW nodes: those that ran the response phase
+		// correctly and are not at the same time a disqualified dealer of the old group.  An honest
+		// node is neither, so it is in QUAL - an honest dealer that gets disqualified (though it
+		// received no justified complaint) shows up here when it is also a member of the new group.
+		inQual := map[int]bool{}
+		for _, q := range done[0].res.QUAL {
+			inQual[int(q.Index)] = true
+		}
+		for _, nd := range r.nodes {
+			if nd.byz == "" && nd.active && nd.nidx >= 0 && !inQual[nd.nidx] {
+				r.fail("honest-node-disqualified", "honest node %s (old index %d, new index %d) is not in QUAL [%s]", nd.name, nd.oidx, nd.nidx, qualString(done[0].res.QUAL))
+			}
+		}
+	}
 	var labels []string
 	for k := range r.stats {
 		labels = append(labels, "dkg-reshare:"+k)
